@@ -193,6 +193,10 @@ func runC10(c *fw.Ctx) {
 		P("x", `{"contentType":"","cacheControl":""}`),
 		P("x", `{"contentType":"text/patched","metadata":{"p":"1"}}`),
 		P("x", `{}`),
+		// content types in spellings a canonicaliser would rewrite: what was sent is what is stored and served
+		{Kind: "Upload", Proto: "media", Bucket: "b", Name: "x", Data: []byte("7"), Meta: gcs.ObjMeta{ContentType: "text/html;charset=UTF-8"}},
+		{Kind: "Upload", Proto: "multipart", Bucket: "b", Name: "x", Data: []byte("88"), Meta: gcs.ObjMeta{ContentType: "Application/JSON"}},
+		P("x", `{"contentType":"multipart/x; z=1; a=\"q d\""}`),
 		{Kind: "Delete", Bucket: "b", Name: "x"},
 		{Kind: "GetMeta", Bucket: "b", Name: "x"},
 		{Kind: "Get", Bucket: "b", Name: "x", Form: "json"},
